@@ -385,4 +385,19 @@ def retainedMatchesHistory (H : List Entry) : List Step → Nat → Option Nat
         && !(agreesUpTo H s.post.dur.log si) then some k
     else retainedMatchesHistory H rest (k + 1)
 
+/-- C07: the configuration a server reports as its latest is the one a configuration entry of its
+    log carries at the reported index, or the one of its newest snapshot — never one whose entry is
+    gone (an uncommitted configuration entry that is truncated must be rolled back) -/
+def latestConfigBacked : List Step → Nat → Option Nat
+  | [], _ => none
+  | s :: rest, k =>
+    let ok (v : View) : Bool :=
+      v.dead || v.vol.latestIdx == 0 ||
+      (match getLog v.dur.log v.vol.latestIdx with
+       | some e => e.kind == 5 && e.cfg == v.vol.latest
+       | none => match newestSnap v.dur with
+         | some sn => v.vol.latestIdx ≤ sn.idx
+         | none => false)
+    if ok s.pre && !ok s.post then some k else latestConfigBacked rest (k + 1)
+
 end SV
